@@ -248,7 +248,8 @@ Proof.
   induction l as [|e l IH]; intros s H; simpl in *; [left; exact H|].
   destruct (IH _ H) as [H1|[t [ks [H1 H2]]]].
   - destruct e; simpl in H1; try (left; exact H1).
-    + rewrite memN_unionN in H1. apply orb_true_iff in H1 as [H1|H1]; [left; exact H1|].
+    + destruct (w_up s); [|left; exact H1]. simpl in H1.
+      rewrite memN_unionN in H1. apply orb_true_iff in H1 as [H1|H1]; [left; exact H1|].
       right. exists t, ks. split; [left; reflexivity|apply memN_In; exact H1].
     + rewrite memN_minusN in H1. apply andb_true_iff in H1 as [H1 _]. left; exact H1.
   - right. exists t, ks. auto.
